@@ -14,10 +14,9 @@
     * no data key `.length` after the first (`$x.length` is written `opt_data.x.length`, which JavaScript — and the
       reader — takes for the length function: same meaning, another tree; `Img` could be widened by a canonical form
       on expressions);
-    * `-isNonnull(e)`, `isNonnull(isNonnull(e))` and `{css isNonnull(e), n}` do not occur: soyjs writes
-      `(- e!= null)`, which JavaScript reads `(-e) != null` (ill-typed Soy: Go stops with an error; the JavaScript
-      prints `true`), resp. `e!= null!= null` / `e!= null + '-'` (valid, and `(e != null) != null` is what is meant;
-      `e != (null + '-')` is not);
+    * (`-isNonnull(e)`, `isNonnull(isNonnull(e))`, `{css isNonnull(e), n}` needed excluding before soyjs a5155c6 —
+      `e!= null` was a bare comparison, and `{css isNonnull($x), n}` printed `truen` for Go's `true-n`; isNonnull is
+      `(e != null)` now and these are in the image);
     * an `{if}` has a first condition, an `{else}` is last (the parser's shapes).
 -/
 import SoyVerif.Props.C14c
@@ -984,7 +983,7 @@ end
   `{let}` / `{foreach}` / `{param}` are identifiers — but of LETTERS, which for the Go lexer includes letters outside
   ASCII (the generator copies them: Props/C14 `IsIdent`; here `JsIdent` asks for ASCII, the alphabet of Spec/JsParse).
   NOT guaranteed, and asked here: well-formed UTF-8 in raw text and string literals; no data key `length` behind a
-  `.`; no `-isNonnull(…)` / `isNonnull(isNonnull(…))` / `{css isNonnull(…), …}`; the first segment of a template's or
+  `.`; the first segment of a template's or
   callee's dotted name is no JavaScript reserved word (Soy has no such rule: `{namespace var.x}` is accepted — real
   soyjs then writes `var.x = …`, no JavaScript).  Variable names need no such condition: the generator appends `$n`.
   Outside the fragment altogether (`toFile = none`): floats, list / map literals, `[e]` accesses, a null-safe access
